@@ -506,3 +506,19 @@ package meta
 //@   ensures result2 == refFound(e, false, haystack, at)
 //@   ensures result2 ==> result0 == refStart(e, false, haystack, at) && result1 == refEnd(e, false, haystack, at)
 //@   ensures !result2 ==> result0 == -1 && result1 == -1
+
+// UseBoth strategy, span search: prefilter shortcuts and the DFA-then-NFA path, against the reference
+//@ spec func pvSharedLink(e *Engine) bool = e.pikevm != nil && (forall h []byte, at int :: pvFoundAt(e.pikevm, h, at) == refFound(e, e.longest, h, at) && pvSpanStart(e.pikevm, h, at) == refStart(e, e.longest, h, at) && pvSpanEnd(e.pikevm, h, at) == refEnd(e, e.longest, h, at))
+//@ func (*Engine).findIndicesAdaptive
+//@   props C02 C12
+//@   opt safety=off
+//@   opt dead_returns=5
+//@   requires leafOK(e) && pvSharedLink(e) && e.prefilter == nil
+//@   modifies @searchState
+//@   ensures result2 == refFound(e, e.longest, haystack, 0)
+//@   ensures result2 ==> result0 == refStart(e, e.longest, haystack, 0) && result1 == refEnd(e, e.longest, haystack, 0)
+//@ trusted func (*Engine).findIndicesNFA
+//@   requires leafOK(e)
+//@   modifies @searchState
+//@   ensures result2 == refFound(e, e.longest, haystack, 0)
+//@   ensures result2 ==> result0 == refStart(e, e.longest, haystack, 0) && result1 == refEnd(e, e.longest, haystack, 0)
